@@ -19,7 +19,7 @@ type ShallowStorage struct {
 // commit per line represented by 40-byte hexadecimal object terminated by a
 // newline.
 func (s *ShallowStorage) SetShallow(commits []plumbing.Hash) error {
-	f, err := s.dir.ShallowWriter()
+	f, err := s.dir.ShallowReplacer()
 	if err != nil {
 		return err
 	}
